@@ -27,3 +27,41 @@ Theorem C18_split_registration_refuted :
   (m1, m2, table r2) = (None, None, [(2, 7); (1, 7)]).
 Proof. exact split_registration_duplicates. Qed.
 Print Assumptions C18_split_registration_refuted.
+
+(* ---- the whole HandleManager as atomic steps (every public method holds handlesMutex for its whole body): any
+   execution of any number of threads is a sequence of these steps in some order --------------------------------------- *)
+From SoftHSM Require HandleLife.
+
+Theorem C18_live_handles_distinct_any_interleaving : forall xs : list HandleLife.op,
+  NoDup (map HandleLife.eh (HandleLife.handles (HandleLife.run HandleLife.init xs))) /\
+  HandleLife.bounded (HandleLife.run HandleLife.init xs).
+Proof. exact HandleLife.live_handles_distinct. Qed.
+Print Assumptions C18_live_handles_distinct_any_interleaving.
+
+Theorem C18_dead_handle_stays_dead_any_interleaving : forall (xs : list HandleLife.op) (m : HandleLife.mgr) (h : N),
+  h <= HandleLife.ctr m -> ~ HandleLife.live m h -> ~ HandleLife.live (HandleLife.run m xs) h.
+Proof. exact HandleLife.dead_handle_stays_dead. Qed.
+Print Assumptions C18_dead_handle_stays_dead_any_interleaving.
+
+Theorem C18_dead_handle_never_returned_any_interleaving :
+  forall (xs : list HandleLife.op) (m : HandleLife.mgr) (h : N) (x : HandleLife.op),
+  0 < h -> h <= HandleLife.ctr m -> ~ HandleLife.live m h -> snd (HandleLife.step (HandleLife.run m xs) x) <> h.
+Proof. exact HandleLife.dead_handle_never_returned. Qed.
+Print Assumptions C18_dead_handle_never_returned_any_interleaving.
+
+Theorem C18_registered_object_keeps_handle_full_manager : forall m slot hs priv o hs' priv',
+  snd (HandleLife.step m (HandleLife.AddObject slot hs priv o)) <> 0 ->
+  snd (HandleLife.step (fst (HandleLife.step m (HandleLife.AddObject slot hs priv o))) (HandleLife.AddObject slot hs' priv' o))
+  = snd (HandleLife.step m (HandleLife.AddObject slot hs priv o)).
+Proof. exact HandleLife.registered_object_keeps_handle. Qed.
+Print Assumptions C18_registered_object_keeps_handle_full_manager.
+
+(* non-vacuity: session 1 and its session object 2 die; later calls get 4, never 1 or 2 *)
+Theorem C18_handle_life_example :
+  let m := HandleLife.run HandleLife.init [HandleLife.AddSession 5 100; HandleLife.AddObject 5 1 false 200;
+                                           HandleLife.AddSession 6 101; HandleLife.SessionClosed 1] in
+  (map HandleLife.eh (HandleLife.handles m), HandleLife.ctr m,
+   snd (HandleLife.step m (HandleLife.AddObject 5 0 false 200)), snd (HandleLife.step m (HandleLife.AddSession 5 102)))
+  = ([3], 3, 4, 4).
+Proof. exact HandleLife.life_example. Qed.
+Print Assumptions C18_handle_life_example.
